@@ -4,4 +4,4 @@ From FlacCodec Require Import Stream StreamRd Write Spec Inverse_frame.
 Extraction Language OCaml.
 Extraction "codec_model.ml" dec_stream dec_subset_frames struct_frame sem_frame write_frame
   parse_streaminfo read_metadata_min dec_frame interleave_frame
-  wf_frame spec_frame spec_decode spec_stream frame_canonical stream_read_all.
+  wf_frame spec_frame spec_decode spec_stream frame_canonical stream_read_all write_subframe subframe_bps.
